@@ -323,7 +323,7 @@ def run_one(ctx, case, d, new, prev_bytes, new_bytes, k, fk, nops, oplog, record
 def run_shard(ctx):
     @given(cases())
     def test(case):
-        check_case(ctx, case)
+        runner.guarded(ctx, check_case, case)
 
     runner.drive(ctx, test, ctx.n(3200, 32000))
 
@@ -335,7 +335,7 @@ def replay(ctx, case):
         only = (case["k"], case["fault"])
         case = case["case"]
     try:
-        check_case(ctx, case, record=False, only=only)
+        runner.guarded(ctx, check_case, case, record=False, only=only)
     except runner.Violation as v:
         return v.msg
     return None
